@@ -323,6 +323,10 @@ func c14(r *Report, s *Sem) {
 
 	R6 := r.Rule("R6", "closing really closes: every Transport.Close implementation closes its underlying connection unless the handle itself is nil, and channel.Close reaches Transport.Close on every path — 'not connected' (end of stream seen) is not 'closed'", 3)
 	checkCloseReallyCloses(r, s, R6)
+	R7 := r.Rule("R7", "a wrong first envelope is refused: the handshake driver reaches its negotiation and authentication stages (and so the callbacks) only for a first session envelope whose own state is 'new' and whose id is empty", 2)
+	checkFirstEnvelopeGate(r, s, R7)
+	R8 := r.Rule("R8", "a refusal by a callback ends the handshake: an error returned by the registration callback, and a failed write of the established envelope, are returned by the authentication driver (never dropped in a shadowed variable, which would retry or establish a refused session)", 2)
+	checkCallbackErrorsPropagate(r, s, R8)
 
 	// ---- R5
 	callers := p.callersOf(fn)
